@@ -19,6 +19,8 @@
 //!   kst   a=xc,yc,ang,asp,h,c                                 -> mean=m0..m9 u=ubox|E ua= au= bb=l,t,w,h,c|E   (initiate -> state -> Universal2DBox / BoundingBox; == both orders)
 //!   seq   a=ubox ops=<op;op;..>                               -> cur=ubox n= gv=<8 f64> fv= pf= ff= gc=<8 f64>|N fc=..|N area= radius=
 //!         ops: g gen_vertices | cl clone | rm:<f32> rotate_mut | r:<f32> rotate | x:/y:/s:/h:<f32> write xc/yc/aspect/height | an:<f32>|N write angle
+//!              ix intersection/IoU with a neighbour (by reference) | cp sutherland_hodgman_clip on clones | tf BoundingBox::try_from(&b)   (queries)
+//!         exp = the fields the box must have (initial fields + the mutators only); tb/tv BoundingBox::try_from(&b)/(b.clone()), tbf/tvf on the fresh box
 //!         afterwards: gv get_vertices(), pf Polygon::from(&b), gc gen_vertices()+get_cached_vertices(); fv/ff/fc the same calls on a FRESH box
 //!         built from the current field values
 //!   vis   kind=E|C t=<f32> d=<f32>                            -> ok=0|1 w=<f32>   (VisualSortMetricType::is_ok / distance_to_weight)
@@ -341,6 +343,10 @@ fn ring8(p: &geo::Polygon<f64>) -> (usize, String) {
 
 fn ev_seq(a: &UB, ops: &str) -> String {
     let mut bx = a.real();
+    // the fields the box must have afterwards: only the mutators (rm r x y s h an) change them; g cl ix cp tf are
+    // queries / cache fills and must leave every public observable alone
+    let mut exp = *a;
+    let other = Universal2DBox::new(a.xc + a.h * a.asp * 0.25, a.yc - a.h * 0.25, None, a.asp, a.h);
     for op in ops.split(';').filter(|o| !o.is_empty()) {
         let (k, arg) = match op.split_once(':') {
             Some((k, v)) => (k, v),
@@ -351,18 +357,58 @@ fn ev_seq(a: &UB, ops: &str) -> String {
                 bx.gen_vertices();
             }
             "cl" => bx = bx.clone(),
-            "rm" => bx.rotate_mut(pf(arg)),
-            "r" => bx = bx.rotate(pf(arg)),
-            "x" => bx.xc = pf(arg),
-            "y" => bx.yc = pf(arg),
-            "s" => bx.aspect = pf(arg),
-            "h" => bx.height = pf(arg),
-            "an" => bx.angle = pof(arg),
+            "ix" => {
+                let _ = guarded(|| Universal2DBox::intersection(&bx, &other));
+                let _ = guarded(|| Universal2DBox::calculate_metric_object(&Some(&bx), &Some(&other)));
+            }
+            "cp" => {
+                let (c1, c2) = (bx.clone(), other.clone());
+                let _ = guarded(move || c1.sutherland_hodgman_clip(c2));
+            }
+            "tf" => {
+                let _ = BoundingBox::try_from(&bx);
+            }
+            "rm" => {
+                bx.rotate_mut(pf(arg));
+                exp.ang = Some(pf(arg));
+            }
+            "r" => {
+                bx = bx.rotate(pf(arg));
+                exp.ang = Some(pf(arg));
+            }
+            "x" => {
+                bx.xc = pf(arg);
+                exp.xc = pf(arg);
+            }
+            "y" => {
+                bx.yc = pf(arg);
+                exp.yc = pf(arg);
+            }
+            "s" => {
+                bx.aspect = pf(arg);
+                exp.asp = pf(arg);
+            }
+            "h" => {
+                bx.height = pf(arg);
+                exp.h = pf(arg);
+            }
+            "an" => {
+                bx.angle = pof(arg);
+                exp.ang = pof(arg);
+            }
             _ => return format!("# unknown op {}", op),
         }
     }
     let cur = UB::of(&bx);
-    let mut fresh = cur.real();
+    let mut fresh = exp.real();
+    let tfs = |r: Result<BoundingBox, similari::Errors>| match r {
+        Ok(x) => BB::of(&x).s(),
+        Err(_) => "E".to_string(),
+    };
+    let (tb, tbf) = (tfs(BoundingBox::try_from(&bx)), tfs(BoundingBox::try_from(&fresh)));
+    let (tv, tvf) = (tfs(BoundingBox::try_from(bx.clone())), tfs(BoundingBox::try_from(fresh.clone())));
+    let (area_f, radius_f) = (fresh.area(), fresh.get_radius());
+    let eqs = format!("{}{}", b01(bx == fresh), b01(fresh == bx));
     let (n, gv) = ring8(&bx.get_vertices());
     let (_, fv) = ring8(&fresh.get_vertices());
     let (_, pfv) = ring8(&geo::Polygon::from(&bx));
@@ -374,8 +420,8 @@ fn ev_seq(a: &UB, ops: &str) -> String {
     let gc = bx.get_cached_vertices().as_ref().map(|p| ring8(p).1).unwrap_or_else(|| "N".into());
     let fc = fresh.get_cached_vertices().as_ref().map(|p| ring8(p).1).unwrap_or_else(|| "N".into());
     format!(
-        "seq a={} ops={} cur={} n={} gv={} fv={} pf={} ff={} gc={} fc={} area={} radius={}",
-        a.s(), ops, cur.s(), n, gv, fv, pfv, ffv, gc, fc, b(area), b(radius)
+        "seq a={} ops={} cur={} exp={} n={} gv={} fv={} pf={} ff={} gc={} fc={} area={} radius={} areaf={} radiusf={} tb={} tbf={} tv={} tvf={} eq={}",
+        a.s(), ops, cur.s(), exp.s(), n, gv, fv, pfv, ffv, gc, fc, b(area), b(radius), b(area_f), b(radius_f), tb, tbf, tv, tvf, eqs
     )
 }
 
@@ -695,6 +741,21 @@ fn gen(seed: u64, n: usize) {
         let m = mag(&mut r, -2.0, 0.8, 23);
         u.ang = Some(if i % 2 == 0 { m } else { -m });
         let mut ops: Vec<String> = vec![];
+        if i % 3 == 2 {
+            // the universal form of an ltwh box (angle None), then only queries / cache fills, sometimes a mutator
+            let bb = gen_bb(&mut r);
+            u = UB::of(&bb.real().as_xyaah());
+            let q = 1 + r.below(3);
+            for _ in 0..q {
+                ops.push((*r.pick(&["g", "g", "ix", "cp", "cl", "tf"])).to_string());
+            }
+            if r.chance(1, 3) {
+                ops.push(format!("x:{}", b(signed(mag(&mut r, -1.0, 2.0, 12), &mut r))));
+                ops.push("g".into());
+            }
+            println!("{}", ev_seq(&u, &ops.join(";")));
+            continue;
+        }
         if i % 5 != 4 {
             ops.push("g".into());
         }
@@ -711,7 +772,7 @@ fn gen(seed: u64, n: usize) {
                 5 => format!("h:{}", b(v)),
                 6 => format!("an:{}", b(signed(mag(&mut r, -2.0, 0.8, 23), &mut r))),
                 7 => "an:N".to_string(),
-                _ => "cl".to_string(),
+                _ => (*r.pick(&["cl", "ix", "cp"])).to_string(),
             };
             ops.push(op);
             if r.chance(1, 4) {
